@@ -138,6 +138,48 @@ CHECKS["C23"] = dict(cat="other", ref="4 C23 / 11.11", engine="pysym",
    note=VSA_NOTE + " C23 specific: operand pairs in C21/C22's exact tables of known-failing interval operands are excluded by assumption (the set / region "
         "lifting is the subject); remaining failures are attributed to C21/C22 only if a recorded interval-level call on the failing path had known-failing "
         "operands. Only one operand carries a symbolic member per exploration.")
+HIST_NOTE = ("Trusted: Z3 4.13.0; the pysym engine; the symbolic oracle backend (harness/symbackend.py) standing in for BackendZ3: it answers every query "
+             "consistently with the asserted formulas while the constraint constants stay symbolic, and its choice of model is explored by forking "
+             "(bounded in the quick tier: two arbitrary models per history, later ones the least model; batch_eval rounds after the first in "
+             "increasing order). exists/forall over the variables are finite expansions over 1-3 bit domains. The atoms are written twice (claripy builder, "
+             "Z3 builder). A creation-order __hash__ is installed on Frontend objects for replay determinism (identity equality unchanged). "
+             "Counterexamples are replayed on the REAL Z3 backend with brute-force specifications; if Z3 happens to pick other models than the "
+             "counterexample needs, on the oracle backend with concrete constants (real frontend code, legal backend answers, ground specifications). "
+             "Bounded: the listed histories, widths, three constants. Budget exhaustion = inconclusive.")
+CHECKS["C11"] = dict(cat="model_checking", ref="4 C11 / 11.12", engine="pysym",
+   text="Solver / SolverCacheless / SolverStrings run unmodified on the symbolic oracle backend over histories of add, satisfiable, eval, batch_eval, "
+        "min/max (signed/unsigned, with/without extra constraints), solution, is_true/is_false, simplify, downsize, branch; one targeted family per "
+        "caching mechanism plus bounded-exhaustive short sequences; reuse_z3_solver on/off. Every recorded answer is checked against its specification "
+        "(exact satisfiability; feasible, distinct, complete results; true optimum as n-bit pattern; solution iff feasible; UnsatError only if unsat) "
+        "for all constants and all backend model choices of the path. Kernel leg: the real BackendZ3._extrema / _batch_eval against an oracle solver "
+        "object whose feasible set is a symbolic bit mask (all 2^(2^n) sets, n <= 4).",
+   technique="symbolic execution of the real frontend code on a symbolic oracle backend; per path Z3 decides each answer's specification (finite expansion over the variable domain)",
+   note=HIST_NOTE)
+for _p, _cat, _t in (
+    ("C12", "model_checking", "SolverComposite (children on the oracle backend) over histories that connect and disconnect variable groups in different orders, "
+                              "queries spanning groups, extra constraints joining groups, branch copy-on-write, simplify; same specifications as C11 with the "
+                              "harness's flat constraint list as the monolithic reference."),
+    ("C13", "model_checking", "SolverReplacement (default options) and SolverHybrid in exact mode over replacement-specific histories (equality, Boolean and bound "
+                              "replacements, conflicts, extra constraints, branches) and C11 families; specifications as C11. The approximate modes are "
+                              "checked as containment obligations on SolverVSA in C24 only (SolverHybrid exact=False is outside this check)."),
+    ("C14", "model_checking", "Trees of up to three branched solver objects (branch of a branch) with interleaved adds, queries, simplify, downsize on every "
+                              "frontend class, reuse_z3_solver on/off; every answer is specified by the constraint list of its own object."),
+    ("C15", "model_checking", "merge (with/without common ancestor, 2-3 solvers, overlapping conditions), combine (disjoint / overlapping / after cached queries) "
+                              "and split on every frontend class: the resulting constraint set has exactly the documented models (formula equivalence by "
+                              "finite expansion), split parts share no variables and partition the conjuncts; later queries on the result checked as in C11."),
+    ("C16", "model_checking", "Tracked Solver / SolverComposite / SolverHybrid reaching unsatisfiability in different orders; the oracle may return any "
+                              "unsatisfiable subset as core (forked). unsat_core() must be a flat sequence of ASTs, each (equivalent to) an added constraint, "
+                              "jointly unsatisfiable, and empty when satisfiable."),
+    ("C17", "fault_enumeration", "Histories in which the k-th backend check raises ClaripySolverInterruptError for a symbolic k (every position of every "
+                                 "check); the faulted operation must raise a claripy error and every later answer of the object and its branches must meet "
+                                 "the C11 specifications. Kernel leg: real BackendZ3._batch_eval / _extrema on an oracle solver object - after a timeout the "
+                                 "assertion stack must be exactly what it was before."),
+    ("C18", "model_checking", "A pickle round trip inserted at every position of six base histories on every frontend class; later answers must meet the "
+                              "same specifications. (In-process; expressions with symbolic constants resolve through the live hash-cons table.)"),
+):
+    CHECKS[_p] = dict(cat=_cat, ref=f"4 {_p} / 11.12", engine="pysym", text=_t,
+                      technique="symbolic execution of the real frontend code on a symbolic oracle backend; per path Z3 decides each answer's specification",
+                      note=HIST_NOTE)
 NOT_YET = {}
 NA = {
  "C20": "Real OS-thread preemption inside CPython and libz3 cannot be encoded by any engine available here; a stress run would be sampling, i.e. a different technique (DESIGN.md section 5).",
